@@ -133,6 +133,13 @@ def special_construction_case(which):
             c0 = LP(ctx.fresh_int("ca"), kid=Q(ctx.fresh_int("cq")))
             del LOG[:]
             q = an(entity(x, or_(x.kid == c0, contains(x.kids, c0), in_(c0, x.kids), not_(x.kid != c0))))
+        elif which == "concrete-predicate-instance":
+            # a Predicate built from concrete arguments only (a plain instance) used as a condition: it is not called when the
+            # query is built either
+            c0 = LP(ctx.fresh_int("ca"))
+            del LOG[:]
+            inst = LoggedPred(c0, k)
+            q = an(entity(x, and_(x.a > k, inst)))
         elif which == "predicate":
             q = an(entity(x, LoggedPred(x, k)))
         elif which == "symbolic-function":
@@ -302,6 +309,37 @@ def forall_consumption_case(N):
     return h
 
 
+def independent_join_consumption_case(N):
+    """two variables with mutually independent conditions: the first result needs only a prefix of BOTH lazy domains"""
+
+    def h(ctx):
+        del LOG[:]
+        nx, ny = 1 + ctx.choice("nx", N), 1 + ctx.choice("ny", N)
+        xs = [P(ctx.fresh_int("xa%d" % i)) for i in range(nx)]
+        ys = [P(ctx.fresh_int("ya%d" % i)) for i in range(ny)]
+        gx, gy = Gen("x", xs), Gen("y", ys)
+        k0, k1 = ctx.fresh_int("k0"), ctx.fresh_int("k1")
+        x, y = let(P, gx, name="x"), let(P, gy, name="y")
+        q = an(set_of([x, y], x.a > k0, y.a < k1))
+        it = iter(q.evaluate())
+        try:
+            next(it)
+            got = 1
+        except StopIteration:
+            got = 0
+        okx = [i for i in range(nx) if xs[i].a > k0]
+        oky = [j for j in range(ny) if ys[j].a < k1]
+        ctx.observe(nx, ny, okx, oky, got, gx.taken, gy.taken)
+        ctx.note("nonempty", got > 0)
+        v = {"a-result-iff-both-sides-have-one": (got == 1) == bool(okx and oky)}
+        if got == 1:
+            v["no-read-ahead-on-the-first-domain"] = gx.taken == okx[0] + 1
+            v["no-read-ahead-on-the-second-domain"] = gy.taken == oky[0] + 1
+        return v
+
+    return h
+
+
 def constrained_consumption_case(N, kind):
     """a result-count constraint does not make the evaluation read ahead: the k-th result is handed out as soon as it is found"""
 
@@ -358,7 +396,7 @@ def cases(tier, seed):
             continue
         seen.add(name)
         cs.append(Case(name, construction_case(cond, sel, 1), reset=eql_reset, validate=1, timeout=120))
-    for which in ("iterator-literal", "user-iterable-literal", "list-literal-of-objects", "object-literal-operand", "predicate", "symbolic-function", "symbolic-function-positional-attr", "rule-tree", "match-with-variable-value", "match-nested"):
+    for which in ("iterator-literal", "concrete-predicate-instance", "user-iterable-literal", "list-literal-of-objects", "object-literal-operand", "predicate", "symbolic-function", "symbolic-function-positional-attr", "rule-tree", "match-with-variable-value", "match-nested"):
         cs.append(Case("build " + which, special_construction_case(which), reset=eql_reset, validate=1))
     # (b) consumption
     x, y = "x", "y"
@@ -372,6 +410,7 @@ def cases(tier, seed):
     for c in two:
         c = relabel_lits(c)
         cs.append(Case("consume entity(x|%s)|N<=%d" % (show(c), N), consumption_case(c, N, True), key="consume entity(x|%s)" % show(c), reset=eql_reset, validate=1, timeout=300, max_paths=100000))
+    cs.append(Case("consume a join of two independent conditions|N<=%d" % (N + 1), independent_join_consumption_case(N + 1), key="consume independent join", reset=eql_reset, validate=1, timeout=300))
     cs.append(Case("consume for_all over a lazily produced universal domain|N<=%d" % (N + 1), forall_consumption_case(N + 1), key="consume for_all", reset=eql_reset, validate=1, timeout=300))
     for kind in ("atleast", "exactly", "range"):
         cs.append(Case("consume under a result-count constraint|%s|N<=%d" % (kind, N + 1), constrained_consumption_case(N + 1, kind), key="consume constrained|" + kind, reset=eql_reset, validate=1, timeout=300))
